@@ -261,6 +261,39 @@ pub fn run(rep: &mut Rep) {
             }
         }
     }
+    // (b2) "of any length": names of 64 KiB and more (16-bit arithmetic on the length), as single
+    //      members of a MakeCredential message and stand-alone
+    for &len in &[65534usize, 65535, 65536, 65537, 65540, 65599, 65600, 65601, 70000, 131072, 131100, 200000] {
+        for w in [1usize, 2, 3, 4] {
+            case += 1;
+            if !rep.mine(case) {
+                continue;
+            }
+            let mut rng = Rng::derive(seed, "c13-huge", case);
+            let mut s = String::with_capacity(len + 4);
+            for _ in 0..(case % 4) {
+                s.push('x');
+            }
+            let ch = char_of_width(&mut rng, w, true);
+            while s.len() + w <= len {
+                s.push(ch);
+            }
+            while s.len() < len {
+                s.push('y');
+            }
+            if !rep.begin("huge-names") {
+                continue;
+            }
+            rep.count_max("max_name_len", s.len() as u64);
+            rep.input_hash(crate::rng::hash_bytes(s.as_bytes()));
+            let short = "short";
+            match case % 3 {
+                0 => judge_names(rep, &ctx, &s, short, short, None, None),
+                1 => judge_names(rep, &ctx, short, &s, short, None, None),
+                _ => judge_names(rep, &ctx, short, short, &s, None, None),
+            }
+        }
+    }
     // (c) random Unicode text
     let n = rep.n(3000, 300_000);
     for _ in 0..n * rep.nshards {
